@@ -183,3 +183,31 @@ def referenced_functions(p: Program, fi):
             if r and r[0] == "func":
                 out[r[1].qualname] = r[1]
     return list(out.values())
+
+
+def class_valued(fi):
+    """Local names of fi that denote classes (flow-insensitive): conventional parameter names, parameters
+    annotated type/Type, results of type(x) / x.__class__, loop variables over an MRO / __bases__."""
+    import ast
+    out = set()
+    a = fi.node.args
+    for p_ in a.posonlyargs + a.args + a.kwonlyargs:
+        ann = ast.unparse(p_.annotation) if p_.annotation is not None else ""
+        if p_.arg in ("spec_cls", "cls", "owner", "klass", "objtype", "attr_type", "type_", "item_type") or p_.arg.endswith("_cls") \
+                or ann in ("type", "Type", "typing.Type") or ann.startswith("Type["):
+            out.add(p_.arg)
+    for n in walk_own(fi.node):
+        if isinstance(n, ast.Assign) and len(n.targets) == 1 and isinstance(n.targets[0], ast.Name):
+            v = ast.unparse(n.value)
+            if (isinstance(n.value, ast.Call) and ast.unparse(n.value.func) == "type" and len(n.value.args) == 1) or v.endswith(".__class__"):
+                out.add(n.targets[0].id)
+        if isinstance(n, (ast.For, ast.comprehension)) and isinstance(n.target, ast.Name):
+            it = ast.unparse(n.iter)
+            if ".mro()" in it or "__mro__" in it or "__bases__" in it:
+                out.add(n.target.id)
+    for n in __import__("ast").walk(fi.node):
+        if isinstance(n, ast.comprehension) and isinstance(n.target, ast.Name):
+            it = ast.unparse(n.iter)
+            if ".mro()" in it or "__mro__" in it or "__bases__" in it:
+                out.add(n.target.id)
+    return out
